@@ -59,6 +59,15 @@ static std::string program(uint64_t seed, const Shared& shared, const std::vecto
   JsonDocument doc;
   lib::build(doc.to<JsonVariant>(), v, s, arena);
   for (int k = 0; k < 6; k++) doc.add(gen::gen_double(s, true));
+  // items whose MessagePack encoding carries an explicit length field
+  doc.add(std::string(32 + (size_t)s.below(300), (char)('a' + s.below(26))));
+  {
+    std::string payload((size_t)s.below(40), (char)s.below(256));
+    doc.add(MsgPackBinary(payload.data(), payload.size()));
+    doc.add(MsgPackExtension((int8_t)s.below(100), payload.data(), payload.size()));
+    JsonArray big = doc.add<JsonArray>();
+    for (int k = 0; k < 20; k++) big.add(k * 1000);
+  }
   std::string j, p, m;
 #ifndef VERIF_TSAN
   g_in_fser.fetch_add(1, std::memory_order_relaxed);
